@@ -488,7 +488,7 @@ struct Case {
         // ---- the real follower
         try { Packet pk(build(p), Timestamp(std::chrono::microseconds(ts)), Packet::own_pdu()); fol.process_packet(pk); }
         catch (...) { return fail("exception/process_packet/" + current_exception_type(), "process_packet threw " + current_exception_type()); }
-        if (st().a.verbose) { std::string e; for (auto& ev : evs) e += " ev(" + std::to_string(ev.type) + "," + std::to_string(ev.ann) + "," + std::to_string(ev.reason) + ")"; fprintf(stderr, "#%zu %s =>%s%s\n", step_no, show(p).c_str(), e.c_str(), inc ? "" : " [untracked]"); }
+        if (st().a.verbose) { std::string e; static const char* en[] = {"new-stream", "client-data", "server-data", "closed", "terminated"}; for (auto& ev : evs) e += std::string(" ") + en[ev.type] + "(conn#" + std::to_string(ev.ann) + (ev.type == EV_TERM ? std::string(",reason=") + (ev.reason == 0 ? "TIMEOUT" : ev.reason == 1 ? "BUFFERED_DATA" : "SACKED_SEGMENTS") : std::string()) + ")"; fprintf(stderr, "#%zu %s =>%s%s\n", step_no, show(p).c_str(), e.c_str(), inc ? "" : " [untracked]"); }
         // ---- compare the callback trace
         int got_new = 0, got_closed = 0, got_term = 0; int tid = inc && !expect_new ? inc->ann : -1;
         auto limits = [&]() { return inc ? std::to_string(inc->chunks()) + " chunks / " + std::to_string(inc->bytes()) + " bytes buffered, " + std::to_string(inc->sacked()) + " SACKed intervals" : std::string(); };
